@@ -166,7 +166,7 @@ func constIntExpr(e ast.Expr) (int64, bool) {
 	return 0, false
 }
 
-// gen <hex spec text> [name]: spec.Parse, golang.Generate into a scratch directory; the emitted package is parsed,
+// gen <hex spec text> [name|-] [hex prior spec text]: spec.Parse, golang.Generate into a scratch directory; the emitted package is parsed,
 // type-checked against the standard library only, and the two tables of lexer.go are compared, entry by entry, with the
 // automaton and terminal map Spec.DFA() computes.
 func cmdGen(f []string) string {
@@ -174,7 +174,7 @@ func cmdGen(f []string) string {
 	if err != nil || s == nil {
 		return "PARSEERR"
 	}
-	if len(f) > 1 {
+	if len(f) > 1 && f[1] != "-" {
 		s.Name = unhx(f[1])
 	}
 	dir, err := os.MkdirTemp("", "verif-gen-")
@@ -182,7 +182,18 @@ func cmdGen(f []string) string {
 		return "TMPERR " + hx(err.Error())
 	}
 	defer os.RemoveAll(dir)
+	if len(f) > 2 {
+		// a package of the same name has been generated into the directory before: the second generation is refused,
+		// or what it leaves behind is the package of the second specification
+		if p, perr := spec.Parse("f", strings.NewReader(unhx(f[2]))); perr == nil && p != nil {
+			p.Name = s.Name
+			_ = golang.Generate(ui.NewNop(), &golang.Params{Path: dir, Spec: p})
+		}
+	}
 	gerr := golang.Generate(ui.NewNop(), &golang.Params{Path: dir, Spec: s})
+	if len(f) > 2 && gerr != nil {
+		return "REFUSED " + errLines(gerr)
+	}
 	d, tm, derr := s.DFA()
 	if gerr != nil {
 		if derr != nil {
